@@ -312,7 +312,7 @@ func (ev *evaluator) domain(key string, t types.Type) []constant.Value {
 			return d
 		}
 	}
-	if strings.HasPrefix(key, "nil:") {
+	if strings.HasPrefix(key, "nil:") || strings.HasPrefix(key, "nonempty:") {
 		return []constant.Value{constant.MakeBool(false), constant.MakeBool(true)}
 	}
 	if ev.spec.Focus != nil && !ev.spec.Focus[key] && !strings.HasPrefix(key, "select:") {
@@ -832,8 +832,25 @@ func (ev *evaluator) evalValue(fr *frame, v ssa.Value, depth int) AV {
 			}
 		}
 		return AV{K: avTuple, Tup: tup}
-	case *ssa.Range, *ssa.Next:
-		ev.abort("range over map/string at %s is not supported by the table extractor", ev.p.InstrPos(x.(ssa.Instruction)))
+	case *ssa.Range:
+		m := ev.get(fr, x.X)
+		ev.allocN++
+		return AV{K: avOpaque, Key: fmt.Sprintf("range%d:%s", ev.allocN, m.Origin), Origin: "range:" + m.Origin, T: x.Type()}
+	case *ssa.Next:
+		// collections are abstracted to at most one element: the first Next
+		// of an iteration asks whether there is an element, the second ends it
+		it := ev.get(fr, x.Iter)
+		ev.callN["next:"+it.Key]++
+		has := false
+		if ev.callN["next:"+it.Key] == 1 {
+			has = ev.demandBool("nonempty:" + it.Origin)
+		}
+		tup := []AV{{K: avConst, C: constant.MakeBool(has), T: types.Typ[types.Bool]}}
+		tt := x.Type().(*types.Tuple)
+		for i := 1; i < tt.Len(); i++ {
+			tup = append(tup, ev.paramValue(fmt.Sprintf("%s.elem%d", it.Origin, i), tt.At(i).Type()))
+		}
+		return AV{K: avTuple, Tup: tup}
 	}
 	ev.abort("unsupported value %T at %s", v, ev.p.InstrPos(v.(ssa.Instruction)))
 	return AV{}
